@@ -189,8 +189,8 @@ class SplitFileMerger(RawIOBase):
                 raise ValueError('negative seek value')
             self._calc_seek(pos)
         elif whence == 1:
-            if self._fake_seek - pos < 0:
-                pos = 0
+            if self._fake_seek + pos < 0:
+                pos = -self._fake_seek
             self._calc_seek(self._fake_seek + pos)
         elif whence == 2:
             if self._total_size + pos < 0:
